@@ -2691,13 +2691,16 @@ namespace bloch::runtime {
                     throw BlochError(ErrorCategory::Runtime, bin->line, bin->column,
                                      "modulo by zero");
                 }
+                // x % -1 is 0 for every x; computing it traps for the most negative long
+                // (the quotient overflows), which would kill the interpreter with SIGFPE.
+                std::int64_t rem = rInt == -1 ? 0 : lInt % rInt;
                 if (hasLong) {
                     Value v;
                     v.type = Value::Type::Long;
-                    v.longValue = lInt % rInt;
+                    v.longValue = rem;
                     return v;
                 }
-                return {Value::Type::Int, static_cast<int>(lInt % rInt)};
+                return {Value::Type::Int, static_cast<int>(rem)};
             }
 
             if (bin->op == ">") {
